@@ -148,6 +148,39 @@ def run_thread_overlap(case) -> dict:
             "fired": {"clk_set": 1, "thread_preemptions": len(tsim.switches)}, "probes": probes, "vtime_ns": 0, "_script": tsim.script()}
 
 
+def run_byz_seed(case) -> dict:
+    """["byzseed", flavour, ft, dl0, l1', l2']: a cache that holds no root key; an unprotect of a blob at the current position is answered
+    by a misbehaving DC with an envelope for ANOTHER L0 interval (the call fails, as it must); the DC then behaves again and a
+    protect naming the root key follows on the same cache at the same instant: its blob must name the current interval."""
+    from checks import plan as P
+
+    _, fl, ft, dl0, bl1, bl2 = case
+    world = W.World(ft & 0xFFFFFFFF)
+    record: list = []
+    cache = offline.new_cache()
+    cur = gkdi.interval_of_filetime(ft)
+    viol = None
+    probes = {"byzantine_reply_then_protect": 1}
+    with world.installed(ctx_factory=drive.stub_ctx_factory(CFG, record)):
+        dc = refdc.RefDC(world, [RK], host=offline.DC, caller_sids={SID}, acceptor_factory=drive.stub_acceptor_factory(CFG),
+                         byz={"reply_position": [cur[0] + dl0, bl1, bl2], "reply_position_first_n": 1})
+        world.clock.set_filetime(ft)
+        blob, _pt = P.make_blob({"rk": 0, "sid": SID, "pos": list(cur), "mode": "nonce", "data": 5}, [RK], 1)
+        first = drive.classify(lambda: offline.call_api(world, fl, "unprotect", blob, cache=cache, server=offline.DC))
+        probes["first_call_" + first.kind] = 1
+        out = drive.classify(lambda: offline.call_api(world, fl, "protect", b"x", SID, root_key_identifier=RK.root_key_id, cache=cache, server=offline.DC))
+    if out.kind != "ok":
+        viol = common.violation("C09", "protect-failed", fl + "-after-byzantine-reply", *drive.exc_sig(out), "", f"protect at filetime {ft} after a misplaced reply failed: {out.exc!r}")
+    else:
+        p = cms.parse_blob(out.value)["key_identifier"]
+        got = (p["l0"], p["l1"], p["l2"])
+        if got != cur:
+            viol = common.violation("C09", "interval", fl + "-after-byzantine-reply", "past" if got < cur else "future", "", "",
+                                    f"clock filetime {ft} = interval {cur}; an earlier unprotect on this cache was answered with an envelope for "
+                                    f"{(cur[0] + dl0, bl1, bl2)}; the protect that followed names {got}")
+    return {"viol": viol, "digest": world.digest(), "key": common.key_hash(case), "fired": {"clk_set": 1}, "probes": probes, "vtime_ns": world.stats.get("vtime_ns", 0)}
+
+
 def run(case) -> dict:
     """case: [config, flavour, ft, sub_ns, [earlier fts...]]"""
     config, fl, ft, sub_ns, history = case[:5]
@@ -229,13 +262,13 @@ class C09(common.Check):
     rule = ("case = (cache configuration rk|seed, flavour, clock instant in 100 ns ticks + sub-tick ns, earlier instants on the same cache). "
             "Enumerated: every L0 boundary 1970..2200 (L0 315..513) x every tick offset -64..+64; L1 and L2 boundaries in 40 L0 epochs x "
             "offsets; sub-tick offsets 0/1/50/99 ns; PRNG instants across 1970..2200; clock jumps backwards/forwards between calls sharing "
-            "a cache; the same instants in fresh interpreters whose process timezone is not UTC; several async protects started together on one cache while the ticking clock passes a boundary (each blob must name an interval of its own call's span); 2..3 caller threads protecting on one cache at the same time under the same oracle, pre-empted at PRNG-chosen line events; a clock that advances 1..1000 ticks per reading so that one call straddles an L2/L1/L0 boundary (any interval containing an "
+            "a cache; the same instants in fresh interpreters whose process timezone is not UTC; several async protects started together on one cache while the ticking clock passes a boundary (each blob must name an interval of its own call's span); a protect that follows, on a cache without root key, an unprotect answered by a misbehaving DC with an envelope for another L0 interval; 2..3 caller threads protecting on one cache at the same time under the same oracle, pre-empted at PRNG-chosen line events; a clock that advances 1..1000 ticks per reading so that one call straddles an L2/L1/L0 boundary (any interval containing an "
             "instant between its first and last reading is accepted); 'seed' cases obtain an envelope from the reference DC late in the epoch and protect after the clock jumped back. "
             "Non-trivial = instant within 64 ticks of an interval boundary or a history with a clock jump; distinct = distinct tuple.")
     components = {"client": "real (ncrypt_protect_secret / async, KeyCache, _get_protection_gke_from_cache)", "clock": "simulated (dpapi_ng._client.time seam)",
                   "DC": "model (RefDC) in the 'seed' configuration", "parser of the emitted blob": "model (ref.cms)"}
     assumptions = ["interval formula in exact integer arithmetic on FILETIME ticks (ref.gkdi.interval_of_filetime)"]
-    required_fired = ("from_cache", "from_cached_seed", "clk_jump_back", "clock_ticks_per_read", "uncovered_offline_raises", "non_utc_timezone", "overlapping_async_protects", "thread_protects_one_cache", "thread_overlap", "thread_call_entirely_on_one_side")
+    required_fired = ("from_cache", "from_cached_seed", "clk_jump_back", "clock_ticks_per_read", "uncovered_offline_raises", "non_utc_timezone", "overlapping_async_protects", "thread_protects_one_cache", "thread_overlap", "thread_call_entirely_on_one_side", "byzantine_reply_then_protect")
 
     def exhaustive(self, tier):
         return True
@@ -308,6 +341,11 @@ class C09(common.Check):
             tick_ticks = rng.choice((1, 1, 2, 3, 40))
             pol = {"mode": "marks", "q": rng.choice((0.2, 0.4, 0.6, 0.9)), "p": rng.choice((0.0, 0.01, 0.03))} if i % 3 else threadpure.policy_for(i // 3)
             out.append(["toverlap", 2 + i % 2, base - rng.randrange(1, 6) * tick_ticks, tick_ticks, rng.getrandbits(30), pol])
+        # a misplaced reply to an earlier unprotect on a cache without root key, then a protect at the same instant
+        for i in range(240 if tier == "quick" else 8000):
+            l0 = rng.randrange(330, 500)
+            ft = (l0 * 1024 + rng.randrange(1024)) * B + rng.randrange(B)
+            out.append(["byzseed", rng.choice(("sync", "async")), ft, rng.choice((-1, -1, -2, 1, -40)), rng.choice((31, 31, rng.randrange(32))), rng.choice((31, rng.randrange(32)))])
         # the process runs in a timezone other than UTC (fresh interpreter per case)
         for k, tz in enumerate(("IST-5:30", "EST5EDT", "NZST-12", "UTC+11")):
             for j in range(4 if tier == "quick" else 40):
@@ -333,6 +371,8 @@ class C09(common.Check):
             return run_overlap(case)
         if case[0] == "toverlap":
             return run_thread_overlap(case)
+        if case[0] == "byzseed":
+            return run_byz_seed(case)
         return run(case)
 
     def shrink(self, case):
@@ -341,7 +381,7 @@ class C09(common.Check):
 
             yield from threadpure.shrinks(case, 5, 1, run_thread_overlap)
             return
-        if case[0] in ("tz", "overlap"):
+        if case[0] in ("tz", "overlap", "byzseed"):
             return
         config, fl, ft, sub, hist = case[:5]
         if len(case) > 5:
@@ -360,6 +400,8 @@ class C09(common.Check):
     def sample_repr(self, case, res):
         if case[0] == "tz":
             return {"config": "rk", "flavour": case[1], "filetime": case[2], "process_timezone": case[3]}
+        if case[0] == "byzseed":
+            return dict(zip(("kind", "flavour", "filetime", "reply_l0_offset", "reply_l1", "reply_l2"), case))
         if case[0] == "toverlap":
             return dict(zip(("kind", "caller_threads", "filetime", "clock_ticks_per_reading", "seed", "thread_policy"), case))
         if case[0] == "overlap":
